@@ -39,15 +39,13 @@ def run():
         if len(ops) >= 3:
             c.count_nontrivial(json.dumps(k, sort_keys=True))
     if not c.replay_path:
-        src = next(e for e in c.events if e["fn"] == "whist" and e["steps"] and e["steps"][0]["outcome"] == "ok" and e["steps"][0]["op"]["k"] in ("shift_y", "scale_y", "trend", "repeat", "append"))
+        first_ok = lambda e: (e["fn"] == "whist" and e["steps"] and e["steps"][0]["outcome"] == "ok" and e["steps"][0]["kinds"] == "ok"
+                              and e["steps"][0]["op"]["k"] in ("shift_y", "scale_y", "trend", "repeat", "append"))
         for field, val, prefix in (("caller", False, "C09.caller_modified"), ("orig_same", False, "C09.original_changed"), ("kinds", "list/ndarray1f", "C09.wellformed")):
-            e = copy.deepcopy(src)
-            e["steps"][0][field] = val
-            c.add_negative(e, prefix)
-        src = next(e for e in c.events if e["fn"] == "wrestore" and e["a"] and e["a"][0]["outcome"] == "ok" and len(e["a"][0]["rx"]) > 1)
-        e = copy.deepcopy(src)
-        e["a"][0]["rx"] = list(reversed(e["a"][0]["rx"]))
-        c.add_negative(e, "C09.restore_bisimilar")
+            c.negative_from(c.events, first_ok, lambda e, field=field, val=val: e["steps"][0].__setitem__(field, val), prefix)
+        c.negative_from(c.events, lambda e: e["fn"] == "wrestore" and e["a"] and e["b"] and e["a"][0]["outcome"] == "ok" and len(e["a"][0]["rx"]) > 1
+                        and e["a"][0]["rx"] != list(reversed(e["a"][0]["rx"])),
+                        lambda e: e["a"][0].__setitem__("rx", list(reversed(e["a"][0]["rx"]))), "C09.restore_bisimilar")
     c.rule = ("programs of up to 10 operations over the whole public Weaver API (%d operation kinds seen this run: %s), all six strategies, all "
               "four interpolation methods, list / array / int arguments, each respecting the operation's documented precondition (decided by "
               "Weaver!OutOfScope), on random series of 4..14 start points growing up to ~80; after every call: container kinds, equal lengths, "
